@@ -13,6 +13,19 @@ def main():
     # allocation pattern before the grammar classes exist: dummy classes and objects shift addresses
     junk = [type(f"Pad{i}", (object,), {"x": i}) for i in range(pad)]
     junk2 = [object() for _ in range(pad * 37)]
+    # ... and holes in the allocator's pools, released in an order that differs from process to process: objects created
+    # during the run then get addresses in a different relative order
+    import random as _random
+
+    class _Filler:
+        def __init__(self, i):
+            self.a = i
+            self.b = {}
+    fill = [_Filler(i) for i in range(3000)] + [bytearray(32 + 8 * (i % 16)) for i in range(2000)] + [[i] for i in range(1000)]
+    order = list(range(len(fill)))
+    _random.Random(1000 + pad).shuffle(order)
+    for i in order[: len(order) * 2 // 3]:
+        fill[i] = None
     if cfg.get("import_order", 0) == 1:
         import geneticengine.representations.stackgggp  # noqa
         import geneticengine.algorithms.gp.gp  # noqa
@@ -40,7 +53,14 @@ def main():
         DynamicStructuredGrammaticalEvolutionRepresentation)
     from geneticengine.representations.stackgggp import StackBasedGGGPRepresentation
 
-    spec = [s for s in GR.fixed_specs() if s["id"] == cfg["grammar"]][0]
+    if cfg["grammar"] == "dupvars":
+        # a variable list in which one name is listed twice (e.g. a data set with a repeated column name)
+        spec = {"id": "dupvars", "start": "Expr", "classes": [
+            GR._c("Expr", "", abstract=True),
+            GR._c("V", "Expr", [("name", ("ann", ("base", "str"), ("VarRange", ["x", "y", "x", "z", "w", "y"])))]),
+            GR._c("Add", "Expr", [("l", GR.E), ("r", GR.E)])]}
+    else:
+        spec = [s for s in GR.fixed_specs() if s["id"] == cfg["grammar"]][0]
     runs = []
     for rep_i in range(cfg.get("repeat", 1)):
         b = GR.build(spec) if rep_i == 0 else b
@@ -65,7 +85,7 @@ def main():
         def ff(p):
             k = term_key(term_of(p)) + "|" + repr(p)      # structure AND the exact text of the program (every value)
             h = hashlib.sha1(k.encode()).hexdigest()[:16]
-            v = int(h[:6], 16) % 1000
+            v = int(h[:6], 16) % cfg.get("levels", 1000)      # few levels: many equally fit programs
             seen.append([h, v])
             return float(v)
 
@@ -85,7 +105,7 @@ def main():
                 from geml.simplegp import SimpleGP
                 sg = SimpleGP(ff, g, minimize=bool(cfg.get("minimize", False)), max_depth=d, max_time=10 ** 9,
                               max_evaluations=cfg["evals"], seed=cfg["seed"], population_size=cfg.get("pop", 8),
-                              elitism=1, novelty=1, mutation_probability=0.5, crossover_probability=0.5)
+                              elitism=cfg.get("elitism", 1), novelty=1, mutation_probability=0.5, crossover_probability=0.5)
                 problem = sg.problem
                 a = sg
             elif alg == "GP":
@@ -95,6 +115,16 @@ def main():
                     from geneticengine.algorithms.gp.operators.mutation import GenericMutationStep
                     from geneticengine.algorithms.gp.operators.selection import TournamentSelection
                     kw["step"] = SequenceStep(TournamentSelection(3), GenericCrossoverStep(0.9), GenericMutationStep(0.5))
+                if cfg.get("step") == "elite":  # survivors of elitism and novelty next to the bred individuals
+                    from geneticengine.algorithms.gp.operators.combinators import SequenceStep, ParallelStep
+                    from geneticengine.algorithms.gp.operators.crossover import GenericCrossoverStep
+                    from geneticengine.algorithms.gp.operators.mutation import GenericMutationStep
+                    from geneticengine.algorithms.gp.operators.selection import TournamentSelection
+                    from geneticengine.algorithms.gp.operators.elitism import ElitismStep
+                    from geneticengine.algorithms.gp.operators.novelty import NoveltyStep
+                    kw["step"] = ParallelStep([ElitismStep(), NoveltyStep(),
+                                               SequenceStep(TournamentSelection(3), GenericCrossoverStep(0.5), GenericMutationStep(0.5))],
+                                              weights=[3, 1, 4])
                 a = GeneticProgramming(problem, budget, rep, rs, population_size=cfg.get("pop", 8), population_initializer=init, **kw)
             elif alg == "RS":
                 a = RandomSearch(problem, budget, rep, rs, **kw)
